@@ -798,17 +798,21 @@ def whileLoop : Nat → EnvId → Node → Node → Pos → EvalM RVal
       | .bool b => if b then whileLoop fuel env c body pos else pure r'
       | v => do throwE ("Expected boolean condition but got " ++ (← typeOf v)) pos
 
-/-- one comprehension step in the local frame: value (and key) first, then the condition -/
+/-- one comprehension step in the local frame: the condition first, then (only if it holds) key and value -/
 def comprStep : Nat → EnvId → ComprKind → Node → Node → Node → Pos → EvalM (Option (RVal × RVal))
   | 0, _, _, _, _, _, _ => failM .oof
   | fuel + 1, lenv, kind, ve, ke, cond, pos => do
-    let k ← (if kind matches .map then eval fuel lenv ke else pure .null)
-    let v ← eval fuel lenv ve
-    if cond matches .absent then pure (some (k, v))
-    else do
-      match ← eval fuel lenv cond with
-      | .bool b => pure (if b then some (k, v) else none)
-      | c => do throwE ("Condition must be boolean but got " ++ (← typeOf c)) pos
+    -- the filter is tested first; key and value are only evaluated for elements that pass it (repair 3dd0891)
+    let pass ← (if cond matches .absent then pure true
+      else do
+        match ← eval fuel lenv cond with
+        | .bool b => pure b
+        | c => do throwE ("Condition must be boolean but got " ++ (← typeOf c)) pos)
+    if pass then do
+      let k ← (if kind matches .map then eval fuel lenv ke else pure .null)
+      let v ← eval fuel lenv ve
+      pure (some (k, v))
+    else pure none
 
 /-- single-variable comprehension (the list of (identifier, values) has one entry) -/
 def comprLoop : Nat → EnvId → ComprKind → Node → Node → Node → Pos → List (String × List RVal) →
